@@ -713,3 +713,30 @@ Proof.
         [discriminate|].
       apply andb_false_iff in E2. destruct E2 as [E2|E2]; apply Z.leb_gt in E2; lia.
 Qed.
+
+(* cancellation through the auth client: no request of any send starts after the
+   context ended, and the call is over by then *)
+Lemma auth_do_cancel warm p bd sc tc dl :
+  0 <= tc ->
+  let a := auth_do warm p (Some (tc, dl)) bd sc in
+  Forall (fun x => fst x <= tc) (attempts (a_first a) ++ attempts (a_second a) ++ attempts (a_third a)) /\
+  a_time a <= tc.
+Proof.
+  intro Htc. unfold auth_do.
+  destruct (round_trip_cancel p bd (init_state bd) sc 0 tc dl Htc) as (A1 & T1 & _).
+  set (o1 := round_trip p (Some (tc, dl)) bd (init_state bd) sc 0) in *.
+  destruct (challenged (o_res o1));
+    [|cbn [a_first a_second a_third a_time attempts]; rewrite !app_nil_r; split; assumption].
+  destruct (rewind bd (o_st o1)) as [st2| |]; cbn [a_first a_second a_third a_time attempts];
+    try (rewrite !app_nil_r; split; assumption).
+  destruct (round_trip_cancel p bd st2 (o_script o1) (o_time o1) tc dl T1) as (A2 & T2 & _).
+  set (o2 := round_trip p (Some (tc, dl)) bd st2 (o_script o1) (o_time o1)) in *.
+  destruct (warm && bearer_challenged (o_res o1) && unauthorized (o_res o2)).
+  2:{ cbn [a_first a_second a_third a_time attempts]. rewrite app_nil_r.
+      split; [apply Forall_app; split; assumption|assumption]. }
+  destruct (rewind bd (o_st o2)) as [st3| |]; cbn [a_first a_second a_third a_time attempts];
+    try (rewrite app_nil_r; split; [apply Forall_app; split; assumption|assumption]).
+  destruct (round_trip_cancel p bd st3 (o_script o2) (o_time o2) tc dl T2) as (A3 & T3 & _).
+  split; [|assumption].
+  apply Forall_app; split; [assumption|]. apply Forall_app; split; assumption.
+Qed.
